@@ -358,7 +358,7 @@ def _oracle(world, sc, kind, interval, periods, start, params, horizon):
     ev = world.events
     first_k = 1 if kind == "factory" else 0
     expected = [start + k * interval for k in range(first_k, periods + 1)]
-    expected_set = set(expected)
+    expected_set = set(expected) | {start}  # acting at the start instant as well is not ruled out for a FactoryPool
     svc = [e for e in ev if e["actor"] == "service" and e["kind"] in ("read", "write", "rule-call", "factory-call")]
     raised = [e for e in ev if e["kind"] in ("service-raised", "service-returned")]
     # 1. every touch of the service task happens at a period boundary
